@@ -3,9 +3,9 @@ package main
 // C16: HOW kinesis.SourceSplitter.Checkpoint reads the tracker state it persists (D61).
 //
 //	c16CheckpointOneLockedRead  1: the values stored as `AssignedShards` and `LastAssignedShardId` both come from ONE
-//	                               call `a, l := <tracker>.M()` of a SplitTracker method M that locks the tracker's
-//	                               mutex first, unlocks it by `defer`, and returns the LastAssignedSplitID field as its
-//	                               second result; Checkpoint itself does not read `.LastAssignedSplitID`;
+//	                               call `a, …, l := <tracker>.M()` of a SplitTracker method M that locks the tracker's
+//	                               mutex first, unlocks it by `defer`, and returns the LastAssignedSplitID field at the
+//	                               position of `l`; Checkpoint itself does not read `.LastAssignedSplitID`;
 //	                            0: Checkpoint reads `.LastAssignedSplitID` itself (outside the tracker's critical
 //	                               section), or the two values come from different calls.
 //
@@ -77,19 +77,23 @@ func c16Facts(fc *facts) {
 	// the defining assignment `a, l := recv.M()`
 	var method string
 	var listVar string
+	idPos, nResults := 1, 2 // position of the id among the call's results
 	ast.Inspect(ck.Body, func(x ast.Node) bool {
 		as, ok := x.(*ast.AssignStmt)
-		if !ok || len(as.Lhs) != 2 || len(as.Rhs) != 1 {
+		if !ok || len(as.Lhs) < 2 || len(as.Rhs) != 1 {
 			return true
 		}
-		l1, ok1 := as.Lhs[1].(*ast.Ident)
-		l0, ok0 := as.Lhs[0].(*ast.Ident)
 		call, okc := as.Rhs[0].(*ast.CallExpr)
-		if !ok0 || !ok1 || !okc || l1.Name != lastID.Name {
+		l0, ok0 := as.Lhs[0].(*ast.Ident)
+		if !okc || !ok0 {
 			return true
 		}
-		if sel, ok := call.Fun.(*ast.SelectorExpr); ok {
-			method, listVar = sel.Sel.Name, l0.Name
+		for k := 1; k < len(as.Lhs); k++ {
+			if lk, ok := as.Lhs[k].(*ast.Ident); ok && lk.Name == lastID.Name {
+				if sel, ok := call.Fun.(*ast.SelectorExpr); ok {
+					method, listVar, idPos, nResults = sel.Sel.Name, l0.Name, k, len(as.Lhs)
+				}
+			}
 		}
 		return true
 	})
@@ -172,11 +176,11 @@ func c16Facts(fc *facts) {
 	ast.Inspect(m.Body, func(x ast.Node) bool {
 		if r, ok := x.(*ast.ReturnStmt); ok {
 			returns++
-			if len(r.Results) != 2 {
+			if len(r.Results) != nResults {
 				returnsField = false
 				return true
 			}
-			switch v := r.Results[1].(type) {
+			switch v := r.Results[idPos].(type) {
 			case *ast.SelectorExpr:
 				if v.Sel.Name != "LastAssignedSplitID" {
 					returnsField = false
